@@ -83,6 +83,12 @@ func init() {
 		fmt.Println(hx.Hex(c08MctWide(a[0], a[1], a[2], a[3], a[4], false)))
 		os.Exit(0)
 	}
+	if len(os.Args) >= 3 && os.Args[1] == "c09-pkt-corr" { // development aid: only the pkt-body correspondence lines, into <dir>
+		c := hx.NewCtx("C09", 1, "quick", os.Args[2])
+		c09CorrPktBody(c)
+		c.Close()
+		os.Exit(0)
+	}
 	if len(os.Args) >= 3 && os.Args[1] == "c08-mct-corr" { // development aid: only the mct-apply correspondence lines, into <dir>
 		c := hx.NewCtx("C08", 1, "quick", os.Args[2])
 		c08CorrMCT(c)
